@@ -73,9 +73,14 @@ func c18Definitions(c *c18Case) *c18Build {
 		// message-flow sources live in process 0 behind a task of their own
 		if i == 0 && c.Link != "none" {
 			link(g.Add(gen.Task, p+"_pre", ""))
-			if c.Link == "start" || c.Link == "both" {
+			if c.Link == "start" || c.Link == "both" || c.Link == "start2" {
 				th := g.Add(gen.Throw, p+"_throwS", "")
 				th.Events = []gen.EventDef{{Type: "message", Ref: "msgS"}}
+				link(th)
+			}
+			if c.Link == "start2" {
+				th := g.Add(gen.Throw, p+"_throwS2", "")
+				th.Events = []gen.EventDef{{Type: "message", Ref: "msgS2"}}
 				link(th)
 			}
 			if c.Link == "catch" || c.Link == "both" {
@@ -104,6 +109,23 @@ func c18Definitions(c *c18Case) *c18Build {
 		b.exec = append(b.exec, true)
 		b.links["p0_throwC"] = append(b.links["p0_throwC"], c18Link{len(b.graphs) - 1, "pc_catch", "catch"})
 		flows = append(flows, `<bpmn:messageFlow id="MF_c" sourceRef="p0_throwC" targetRef="pc_catch"/>`)
+	}
+	if c.Link == "start2" {
+		// a first waiting process that is NOT the target of the second flow, and a second one that is
+		for _, w := range []string{"pw", "pw2"} {
+			g := gen.NewGraph(w)
+			s := g.Add(gen.Start, w+"_start", "")
+			t := g.Add(gen.Task, w+"_t", "")
+			e := g.Add(gen.End, w+"_end", "")
+			g.Connect(s, t, nil)
+			g.Connect(t, e, nil)
+			b.graphs = append(b.graphs, g)
+			b.exec = append(b.exec, false)
+		}
+		b.links["p0_throwS"] = append(b.links["p0_throwS"], c18Link{len(b.graphs) - 2, "pw_start", "start"})
+		b.links["p0_throwS2"] = append(b.links["p0_throwS2"], c18Link{len(b.graphs) - 1, "pw2_start", "start"})
+		flows = append(flows, `<bpmn:messageFlow id="MF_s" sourceRef="p0_throwS" targetRef="pw_start"/>`,
+			`<bpmn:messageFlow id="MF_s2" sourceRef="p0_throwS2" targetRef="pw2_start"/>`)
 	}
 	if c.Link == "start" || c.Link == "both" {
 		g := gen.NewGraph("pw")
@@ -138,7 +160,7 @@ func c18Cases(tier string, seed uint64) []fw.Case {
 	}
 	combos = append(combos, []string{"trivial", "trivial", "trivial"}, []string{"task", "trivial", "fork"}, []string{"fork", "task", "task"})
 	for ci, ex := range combos {
-		for _, link := range []string{"none", "start", "catch", "both"} {
+		for _, link := range []string{"none", "start", "catch", "both", "start2"} {
 			if link != "none" && ex[0] == "trivial" && len(ex) == 1 {
 				// fine: p0 gets the pre task anyway
 			}
